@@ -13,7 +13,9 @@ MANIFEST = {
              "recovery code, and must contain every transaction acknowledged before that instant (immediate / synced ones for "
              "power loss); a sample of recovered images receives further commits and is crashed again (later sessions)."),
     "design_ref": "DESIGN.md §4 C02",
-    "note": ("Single committer per workload (the commit order is the issue order); 6 option sets; power-loss images: all unsynced "
+    "note": ("Single committer per workload (the commit order is the issue order); 8 option sets, two of them with scripted "
+             "rotation / flush-one / compaction so that several immutable memtables are pending at the crash instants; directed "
+             "gate-scheduler scenarios for a commit in flight during close() and during a rotation + flush by someone else; power-loss images: all unsynced "
              "appended bytes dropped / half of them kept; namespace operations kept in order as the property's crash model says. "
              "spec/storage/Storage.tla is model checked (every reachable state = a crash instant, both models; the model of the "
              "pinned behaviour must still violate all four invariants) and bound to the code by StorageTrace.tla, which "
@@ -26,6 +28,7 @@ def run(ctx):
     _storage.model_check(ctx)
     tot = _storage.run_sweep(ctx, ctx.pick(18, 96), ctx.pick(120, 2000), ["process", "synced", "mid"], gen2=ctx.pick(1, 4))
     _commit.close_race(ctx)      # a commit in flight while close() flushes and retires the commit log
+    _commit.flush_race(ctx)      # ... while its memtable is rotated away and flushed by someone else
     ctx.cov["evaluations"] = tot["images"] + tot["gen2_images"]
     ctx.cov["distinct_nontrivial"] = tot["images"]
     ctx.cov["rule"] = ("one evaluation = one (workload, crash instant, crash model) image reopened by the real recovery code; "
@@ -33,4 +36,7 @@ def run(ctx):
 
 
 def replay(ctx, doc):
-    _storage.replay(ctx, doc["replay"])
+    if doc["replay"].get("driver") in ("close_race", "flush_race"):
+        _commit.replay(ctx, doc["replay"])
+    else:
+        _storage.replay(ctx, doc["replay"])
